@@ -35,6 +35,9 @@ Admits(exp, obs) ==
 ----------------------------------------------------------------------------
 (* States as values *)
 
+\* exact value texts agree wherever both sides know them ("?" = not supplied)
+ExSame(e1, e2) == DOMAIN e1 = DOMAIN e2 /\ \A g \in DOMAIN e1 : e1[g] = e2[g] \/ e1[g] = "?" \/ e2[g] = "?"
+
 StEq(s1, s2) ==
   /\ s1.facts = s2.facts
   /\ DOMAIN s1.fl = DOMAIN s2.fl
@@ -99,7 +102,7 @@ RunAdmits(exp, obs, nPlan) ==
         /\ obs[i].preHdr = (IF i = 1 THEN ":init" ELSE ":state")
         /\ obs[i].postHdr = ":state"
   \* chained as values, whatever the specification leaves open
-  /\ \A i \in 1..(Len(obs) - 1) : StEq(obs[i + 1].pre, obs[i].post)
+  /\ \A i \in 1..(Len(obs) - 1) : StEq(obs[i + 1].pre, obs[i].post) /\ ExSame(obs[i + 1].pre.ex, obs[i].post.ex)
 
 ----------------------------------------------------------------------------
 (* ParseProblem: a = [D, tree].  A well-formed problem is returned with      *)
@@ -107,12 +110,13 @@ RunAdmits(exp, obs, nPlan) ==
 (* else is rejected with an error.                                           *)
 
 ProblemProj(P) ==
-  [name |-> P.name, objs |-> Range(P.objs), facts |-> P.init.facts, fl |-> P.init.fl,
+  [name |-> P.name, objs |-> Range(P.objs), facts |-> P.init.facts, fl |-> P.init.fl, ex |-> P.init.ex,
    glits |-> P.goal.lits, gcmps |-> P.goal.cmps]
 
 ProjEq(a, b) ==
   /\ a.name = b.name /\ a.objs = b.objs /\ a.glits = b.glits /\ a.gcmps = b.gcmps
   /\ StEq([facts |-> a.facts, fl |-> a.fl], [facts |-> b.facts, fl |-> b.fl])
+  /\ ExSame(a.ex, b.ex)   \* values are preserved exactly, not just up to the snapping tolerance
 
 \* [accept : must the call return?, proj]
 ParseProblem_Exp(D, tree, dv) ==
